@@ -219,9 +219,10 @@ harnesses! {
 
 /// K: `init` (= `first_byte` + '>' validation) from `New`: skips leading blank lines across
 /// refills; reports the first non-blank line
-pub fn k_init<N: Nd, const F: usize, const CAP: usize>(nd: &mut N) {
+pub fn k_init<N: Nd, const F: usize, const CAP: usize, const FIXLEN: bool>(nd: &mut N) {
     let file: [u8; F] = any_file::<N, F>(nd);
-    let n = nd.usize_in(0, F);
+    // FIXLEN: the file has exactly F bytes (one instance per length keeps the refill loop concrete)
+    let n = if FIXLEN { F } else { nd.usize_in(0, F) };
     nd.note("format", b"fasta");
     nd.note("file", &file[..n]);
     nd.note_num("cap", CAP as u64);
@@ -287,18 +288,18 @@ pub fn k_init<N: Nd, const F: usize, const CAP: usize>(nd: &mut N) {
 }
 
 pub fn k_init_f4_c3<N: Nd>(nd: &mut N) {
-    k_init::<N, 4, 3>(nd)
+    k_init::<N, 4, 3, true>(nd)
 }
 pub fn k_init_f5_c3<N: Nd>(nd: &mut N) {
-    k_init::<N, 5, 3>(nd)
+    k_init::<N, 5, 3, false>(nd)
 }
 pub fn k_init_f5_c4<N: Nd>(nd: &mut N) {
-    k_init::<N, 5, 4>(nd)
+    k_init::<N, 5, 4, false>(nd)
 }
 
 harnesses! {
     @reg registry2;
-    /// @meta props=C01,C17,C05:t,C03:t,C06:t tier=quick kind=K stage2=pub timeout=1500 mem=12 unwind=6 unwindset="first_byte:6;seq_io::fill_buf:4" bounds="fasta::Reader::init from New on every file <= 4 bytes at capacity 3 (blank prefix crossing one refill), whole reads"
+    /// @meta props=C01,C17,C05:t,C03:t,C06:t tier=quick kind=K stage2=pub timeout=1500 mem=12 unwind=6 unwindset="first_byte:6;seq_io::fill_buf:4" bounds="fasta::Reader::init from New on every file of exactly 4 bytes at capacity 3 (blank prefix crossing one refill), whole reads"
     fak_init_f4_c3 => k_init_f4_c3;
     /// @meta props=C01,C05,C17,C03,C06 tier=thorough kind=K stage2=pub timeout=3000 mem=16 unwind=8 unwindset="first_byte:7;seq_io::fill_buf:4" bounds="fasta::Reader::init from New on every file <= 5 bytes at capacity 3 (blank prefix crossing up to 2 refills), whole reads"
     fak_init_f5_c3 => k_init_f5_c3;
